@@ -306,6 +306,9 @@ const prelude = `(set-option :smt.mbqi true)
 (declare-fun root (Ref) Ref)
 (assert (forall ((r Ref) (k Int)) (! (and (= (fld_base (fld r k)) r) (= (fld_idx (fld r k)) k) (= (rkind (fld r k)) 1) (= (root (fld r k)) (root r))) :pattern ((fld r k)))))
 (assert (forall ((r Ref) (i Int)) (! (and (= (elem_base (elem r i)) r) (= (elem_idx (elem r i)) i) (= (rkind (elem r i)) 2) (= (root (elem r i)) (root r))) :pattern ((elem r i)))))
+(declare-fun eroot (Ref) Ref)
+(assert (forall ((r Ref) (k Int)) (! (= (eroot (fld r k)) (eroot r)) :pattern ((fld r k)))))
+(assert (forall ((r Ref) (i Int)) (! (= (eroot (elem r i)) (elem r i)) :pattern ((elem r i)))))
 (assert (= (rkind null) 0))
 (assert (= (root null) null))
 (declare-datatypes ((Slice 0)) (((mk_slice (sarr Ref) (soff Int) (slen Int) (scap Int)))))
@@ -317,6 +320,7 @@ const prelude = `(set-option :smt.mbqi true)
 (declare-datatypes ((Fn 0)) (((mk_fn (fn_id Int) (fn_env Ref)))))
 (define-fun nil_fn () Fn (mk_fn 0 null))
 (declare-fun iscell (Ref) Bool)
+(declare-fun atype (Ref) Int)
 (declare-fun implements (Int Int) Bool)
 (declare-fun bv_and (Int Int) Int)
 (declare-fun bv_or (Int Int) Int)
